@@ -136,7 +136,7 @@ def r07a(chk, rid='R07.a'):
     try:
         with mp.get_context('fork').Pool(min(16, len(jobs))) as pool:
             results = pool.map(_eval_chunk, jobs)
-    except (OSError, ValueError):
+    except Exception:  # no fork available, or already inside a worker process
         results = [_eval_chunk(j) for j in jobs]
     n = sum(r[0] for r in results)
     fails = [f for r in results for f in r[1]]
